@@ -28,6 +28,7 @@ import (
 	"time"
 
 	"github.com/janelia-flyem/dvid/dvid"
+	"github.com/janelia-flyem/dvid/dvid/verifhook"
 	"github.com/janelia-flyem/dvid/storage"
 )
 
@@ -1889,6 +1890,7 @@ func (m *repoManager) newVersion(parent dvid.UUID, note string, branchname strin
 	m.repos[childUUID] = r
 	m.repoMutex.Unlock()
 
+	verifhook.Yield("datastore.newVersion.append")
 	node.children = append(node.children, childV)
 	node.updated = time.Now()
 
@@ -2731,6 +2733,7 @@ func (r *repoT) saveToStore(db storage.OrderedKeyValueDB) error {
 		return fmt.Errorf("cannot save repo to nil store")
 	}
 	r.RLock()
+	verifhook.Yield("datastore.saveToStore.rlocked")
 	compression, err := dvid.NewCompression(dvid.LZ4, dvid.DefaultCompression)
 	if err != nil {
 		return err
